@@ -99,6 +99,35 @@ BigFoldOK(r) ==
     /\ r.op \in {"boxed_fold", "boxed_into_iter"} /\ ShapeKey(r.shape) \in DOMAIN BigShapes
     /\ LET sh == BigShapes[ShapeKey(r.shape)] IN r.n = sh.n /\ r.sum = SumOf([n |-> sh.n, pat |-> "mod1000", c |-> 0])
 
+(* ---- sequence operations far above the value pool's lengths (2048, 2049, 4097; C09) ---------------------------- *)
+\* the array holds its own indices 0..n-1; a result is summarised as <<length, first, last, sum mod 1000003>> (-1: none)
+TriSum(k) == (k * (k - 1)) \div 2                                       \* 0 + 1 + ... + (k-1); k <= 4098: fits 32 bits
+Summ(len, first, last, sum) == <<len, IF len = 0 THEN -1 ELSE first, IF len = 0 THEN -1 ELSE last, sum % 1000003>>
+RangeSumm(a, b) == Summ(b - a, a, b - 1, TriSum(b) - TriSum(a))          \* the elements a .. b-1
+BigSeqOK(r) ==
+    LET n == r.n  i == r.arg  all == TriSum(n) IN
+    CASE r.op = "remove" ->
+            /\ i < n /\ r.removed = i
+            /\ r.outs = << Summ(n - 1, IF i = 0 THEN 1 ELSE 0, IF i = n - 1 THEN n - 2 ELSE n - 1, all - i),
+                           << IF i < n - 1 THEN i + 1 ELSE -1 >> >>
+      [] r.op = "swap_remove" ->
+            /\ i < n /\ r.removed = i
+            \* (the last element takes the place of the removed one: it ends up last again only if that place was the last but one)
+            /\ r.outs = << Summ(n - 1, IF i = 0 THEN n - 1 ELSE 0, IF i = n - 2 THEN n - 1 ELSE n - 2, all - i),
+                           << IF i < n - 1 THEN n - 1 ELSE -1 >> >>
+      [] r.op = "pop_back" -> r.removed = n - 1 /\ r.outs = << RangeSumm(0, n - 1) >>
+      [] r.op = "pop_front" -> r.removed = 0 /\ r.outs = << RangeSumm(1, n) >>
+      [] r.op = "append" -> r.outs = << RangeSumm(0, n + 1) >>
+      [] r.op = "prepend" -> r.outs = << Summ(n + 1, n, n - 1, all + n) >>
+      [] r.op = "split1" -> r.outs = << RangeSumm(0, 1), RangeSumm(1, n), RangeSumm(0, n) >>
+      [] r.op = "split1024" -> r.outs = << RangeSumm(0, 1024), RangeSumm(1024, n), RangeSumm(0, n) >>
+\* serde at lengths above 4096 (C17): bincode (exact size hints, 4 bytes per element, no prefix) and JSON round trips,
+\* one element too many / too few rejected
+BigSerdeOK(r) == r.bin_len = 4 * r.n /\ r.bin_ok /\ r.json_ok /\ r.too_long_rejected /\ r.too_short_rejected
+\* chunk views of slices of zero-sized elements longer than any sized slice can be (C10): counts as for any length,
+\* and slice_from_chunks is still the inverse (the driver compares with L div N, L mod N, (L div N) * N in 64 bits)
+ZstHugeOK(r) == r.count_ok /\ r.rem_ok /\ r.flat_ok
+
 HeapBackedKinds == {"box", "vec", "bslice"}
 NeedsBlock(v) == cfg.rec /\ v.kind \in HeapBackedKinds /\ Len(v.items) > 0 /\ ~Anonymous
 HeapInv ==
